@@ -39,7 +39,7 @@ Example C01_royal :
 Proof.
   split; [|vm_compute; reflexivity].
   repeat split; [| apply Base.Reflect.nodupb_NoDup; vm_compute; reflexivity].
-  apply Forall_forall. intros w Hw. apply Proofs.CardFacts.real_cardb_spec.
+  apply Forall_forall. intros w Hw. apply Proofs.CardBase.real_cardb_spec.
   cbn [In] in Hw. repeat (destruct Hw as [<-|Hw]; [vm_compute; reflexivity|]). contradiction.
 Qed.
 Example C01_worst :
